@@ -232,7 +232,8 @@ pub fn child_main(dir: &Path) -> i32 {
             match Op::parse(line) {
                 None => "bad-op".to_string(),
                 Some(op) => {
-                    let wid = crate::run::watch_begin(30_000, format!("child op {}", line));
+                    let budget: u64 = std::env::var("ABYSS_CHILD_BUDGET_MS").ok().and_then(|s| s.parse().ok()).unwrap_or(30_000);
+                    let wid = crate::run::watch_begin(budget, format!("child op {}", line));
                     let r = match catch_unwind(AssertUnwindSafe(|| imp.exec(&op))) {
                         Ok(s) => s,
                         Err(e) => {
